@@ -369,10 +369,10 @@ def main(argv=None):
     ap.add_argument("--jobs", type=int)
     a = ap.parse_args(argv)
     seed = int(os.environ.get("VERIF_SEED", "0"))
-    try:
-        import specs.levels  # noqa: F401  (fills LEVELS / EXPLAIN)
-    except ModuleNotFoundError:
-        pass
+    import specs.levels as _lv
+
+    LEVELS.update(_lv.LEVELS)
+    EXPLAIN.update(_lv.EXPLAIN)
     try:
         code = check_property(a.prop, a.tier, seed, a.write_baseline, a.unit, a.jobs)
     except Exception:
